@@ -57,7 +57,8 @@ fn line(s: impl Into<String>) -> Bx {
     vec![s.into()]
 }
 fn width(s: &str) -> usize {
-    s.chars().count()
+    // gluon's layout algorithm measures columns in bytes (base/src/source.rs), so must we
+    s.len()
 }
 /// horizontal composition: `b` starts where the last line of `a` ends
 fn hcat(mut a: Bx, b: Bx) -> Bx {
@@ -203,7 +204,9 @@ fn pat(p: &Pat, atomic: bool) -> String {
     match p {
         Pat::Wild => "_".into(),
         Pat::Var(x) => x.clone(),
-        Pat::Lit(l) => lit_to_gluon(l),
+        Pat::Lit(l) => {
+            if atomic && lit_negative(l) { format!("({})", lit_to_gluon(l)) } else { lit_to_gluon(l) }
+        }
         Pat::Con(c, ps) => {
             if ps.is_empty() {
                 c.clone()
@@ -274,10 +277,17 @@ struct P<'a> {
 impl<'a> P<'a> {
     /// expression at the given level; parenthesised when its class is lower
     fn ex(&self, e: &Expr, lvl: Lvl) -> Bx {
+        self.exb(e, lvl, false)
+    }
+
+    /// `blk`: the expression starts a layout block (top level, right of `=`, `->`, `then`, `else`)
+    /// where implicit `in` / separators are available; false directly inside parentheses,
+    /// brackets, braces or as an operand.
+    fn exb(&self, e: &Expr, lvl: Lvl, blk: bool) -> Bx {
         if class(e) < lvl {
-            hs(sh("(", self.ex(e, Lvl::Block)), ")")
+            hs(sh("(", self.raw(e, false)), ")")
         } else {
-            self.raw(e)
+            self.raw(e, blk)
         }
     }
 
@@ -304,7 +314,9 @@ impl<'a> P<'a> {
     /// `head rhs` on one line when `rhs` is a single line or the style keeps blocks inline;
     /// otherwise `head` and the indented `rhs` below it
     fn hang(&self, head: Bx, rhs_e: &Expr) -> Bx {
-        let rhs = self.ex(rhs_e, Lvl::Block);
+        // explicit style relies on `in` only: nothing below the top-level spine is treated as a
+        // layout block
+        let rhs = self.exb(rhs_e, Lvl::Block, self.st.layout);
         if single(&rhs) || !self.st.layout {
             hcat(hs(head, " "), rhs)
         } else {
@@ -322,10 +334,13 @@ impl<'a> P<'a> {
         self.hang(line(format!("let {} =", pat(p, true))), e)
     }
 
-    fn with_in(&self, binding: Bx, body: &Expr) -> Bx {
-        let body = self.ex(body, Lvl::Block);
-        if self.st.layout {
+    fn with_in(&self, binding: Bx, body: &Expr, blk: bool) -> Bx {
+        let body = self.exb(body, Lvl::Block, blk);
+        if self.st.layout && blk {
             vcat(binding, body)
+        } else if !blk {
+            // not in a block context: keep `in body` on the line of the `in`
+            hcat(hs(binding, " in "), body)
         } else if single(&binding) {
             vcat(hs(binding, " in"), body)
         } else {
@@ -333,13 +348,13 @@ impl<'a> P<'a> {
         }
     }
 
-    fn raw(&self, e: &Expr) -> Bx {
+    fn raw(&self, e: &Expr, blk: bool) -> Bx {
         match e {
             Expr::Lit(l) => line(lit_to_gluon(l)),
             Expr::Var(x) => line(x.clone()),
             Expr::Lam(params, body) => self.hang(line(format!("\\{} ->", params.join(" "))), body),
             Expr::App(f, args) => self.app(self.ex(f, Lvl::Arg), args),
-            Expr::Let(p, e1, e2) => self.with_in(self.let_head(p, e1), e2),
+            Expr::Let(p, e1, e2) => self.with_in(self.let_head(p, e1), e2, blk),
             Expr::Rec(binds, body) => {
                 let mut b: Bx = vec![];
                 for r in binds {
@@ -347,22 +362,19 @@ impl<'a> P<'a> {
                 }
                 if binds.len() == 1 && self.st.fun_sugar {
                     // a single `let f x = …` is already self-recursive
-                    self.with_in(b, body)
-                } else if binds.len() == 1 {
-                    b[0] = format!("rec {}", b[0]);
-                    // continuation lines keep their relative position to the `let`
-                    let b: Bx = b.into_iter().enumerate().map(|(i, l)| if i == 0 { l } else { format!("    {}", l) }).collect();
-                    self.with_in(b, body)
+                    self.with_in(b, body, blk)
                 } else {
-                    let b = vcat(line("rec"), b);
-                    let body = self.ex(body, Lvl::Block);
-                    if self.st.layout { vcat(b, body) } else { vcat(vcat(b, line("in")), body) }
+                    // a following `let` would join the group: always close it with `in`;
+                    // the `let`s of the group must be aligned with the first one
+                    let b = sh("rec ", b);
+                    let body = self.exb(body, Lvl::Block, blk);
+                    if blk { vcat(vcat(b, line("in")), body) } else { hcat(hs(b, " in "), body) }
                 }
             }
             Expr::If(c, t, f) => {
                 let cb = self.ex(c, Lvl::Infix);
-                let tb = self.ex(t, if self.st.layout { Lvl::Block } else { Lvl::Infix });
-                let fb = self.ex(f, Lvl::Block);
+                let tb = self.exb(t, if self.st.layout { Lvl::Block } else { Lvl::Infix }, self.st.layout);
+                let fb = self.exb(f, Lvl::Block, self.st.layout);
                 if single(&cb) && single(&tb) && single(&fb) && !self.st.layout {
                     line(format!("if {} then {} else {}", cb[0], tb[0], fb[0]))
                 } else {
@@ -402,7 +414,7 @@ impl<'a> P<'a> {
                     let alt = if self.st.layout {
                         self.hang(head, e)
                     } else {
-                        hcat(hs(head, " "), self.ex(e, Lvl::Infix))
+                        hcat(hs(head, " "), self.exb(e, Lvl::Infix, false))
                     };
                     b = vcat(b, alt);
                 }
@@ -410,13 +422,13 @@ impl<'a> P<'a> {
             }
             Expr::Seq(a, b) => {
                 let head = if self.st.seq_do { "do _ =" } else { "let _ =" };
-                self.with_in(self.hang(line(head), a), b)
+                self.with_in(self.hang(line(head), a), b, blk)
             }
             Expr::Error(m) => line(format!("error {}", lit_to_gluon(&Lit::Str(m.clone())))),
             Expr::Eff(e) => self.app(line("eff"), &[(**e).clone()]),
             Expr::Ann(e, t) => {
                 let b = self.hang(line(format!("let ann_ : {} =", ty(t, 0))), e);
-                self.with_in(b, &Expr::Var("ann_".into()))
+                self.with_in(b, &Expr::Var("ann_".into()), blk)
             }
         }
     }
@@ -513,13 +525,13 @@ pub fn header(p: &Program, st: &Style) -> Vec<String> {
 
 /// The expression alone (no header), as a block of lines.
 pub fn expr_to_gluon(e: &Expr, st: &Style) -> String {
-    P { st }.ex(e, Lvl::Block).join("\n")
+    P { st }.exb(e, Lvl::Block, true).join("\n")
 }
 
 /// The complete program text accepted by `ThreadExt::run_expr` on a VM built by `mg::run::new_vm`.
 pub fn to_gluon(p: &Program, st: &Style) -> String {
     let mut lines = header(p, st);
-    lines.extend(P { st }.ex(&p.expr, Lvl::Block));
+    lines.extend(P { st }.exb(&p.expr, Lvl::Block, true));
     let mut s = lines.join("\n");
     s.push('\n');
     s
